@@ -22,6 +22,8 @@ def plan(tier, seed):
     bounds["S2"] = ("raw string token of 1-%d symbolic pieces (an arbitrary code point, or an escape pair) as string argument, list "
                     "element, tag parameter list element, at nesting depth 0-2, and a text: block body of 1-%d arbitrary characters"
                     % ((2, 2) if q else (3, 3)))
+    conds += t4_conds("c04", timeout=280 if q else 1500, quick=q)
+    bounds["T4"] = T4_BOUND
     conds += twins("c04")
     meta = dict(functions=PARSER_FUNCS + ["sievelib.commands.Command.tosieve"],
                 bounds=bounds, outside=["values longer than the S2 bound", "scripts beyond the token bounds"],
